@@ -4,7 +4,7 @@
    (Frame headers, join payloads and CFList: see the C06 part of Frame/FrameSpecProofs.v.) *)
 From Coq Require Import List NArith ZArith Bool.
 From LW Require Import Base.Outcome Base.Bytes Mac.Commands Mac.Spec Mac.Stream
-     Mac.RegistryProofs Mac.DecProofs Mac.EncProofs Mac.PackProofs Frame.Model Frame.WireSpec Frame.WireSpecProofs Frame.CFListSpecProofs.
+     Mac.RegistryProofs Mac.DecProofs Mac.EncProofs Mac.PackProofs Mac.StreamProofs Frame.Model Frame.WireSpec Frame.WireSpecProofs Frame.CFListSpecProofs.
 From LWGen Require Import RegistryGen.
 Import ListNotations.
 Open Scope N_scope.
@@ -30,7 +30,7 @@ Print Assumptions C06_registry_covers_spec.
    frequency in 100 Hz / 200 Hz units, 6-bit signed margin, 1/256 s fraction) *)
 Theorem C06_encode_is_spec : forall v bs,
   wf_go v = true -> kind_of v <> KProprietary -> enc v = Ok bs ->
-  bs = spec_encode (layout_of (kind_of v)) (fields_of v).
+  bs = spec_encode_k (kind_of v) (fields_of v).
 Proof. exact enc_eq_spec. Qed.
 Print Assumptions C06_encode_is_spec.
 
@@ -42,9 +42,27 @@ Theorem C06_decode_is_spec : forall k bs,
   k <> KProprietary -> Forall (fun b => b < 256) bs ->
   dec k bs =
   if Nat.eqb (length bs) (byte_size (layout_of k))
-  then Ok (value_of k (spec_decode (layout_of k) bs)) else Err.
+  then Ok (value_of k (spec_decode_k k bs)) else Err.
 Proof. exact dec_eq_spec. Qed.
 Print Assumptions C06_decode_is_spec.
+
+(* [spec_encode_k] / [spec_decode_k] are the layout interpreter for every kind but one: the table
+   [legacy_octets] of Mac/Spec.v names the single whole-octet value that is not read through a
+   layout - DutyCycleReq octet 255 (LoRaWAN 1.0 "device off"; 1.0.2+/1.1: MaxDCycle 3:0, RFU 7:4) *)
+Theorem C06_layout_only_kinds : forall k x,
+  k <> KDutyCycleReq ->
+  spec_encode_k k x = spec_encode (layout_of k) x /\ spec_decode_k k x = spec_decode (layout_of k) x.
+Proof. exact layout_only_kinds. Qed.
+Print Assumptions C06_layout_only_kinds.
+
+(* DutyCycleReq spelled out, all 256 octets (finding C06-3, fixed): the RFU bits 7:4 of a received
+   octet do not reach the value - 0x17 is MaxDCycle 7, not 23 -, octet 255 is the value 255, and
+   what the decoder yields the encoder accepts (octet with the RFU bits cleared) *)
+Theorem C06_dutycycle_rfu_ignored : forall b, b < 256 ->
+  dec KDutyCycleReq [b] = Ok (PDutyCycleReq (if b =? 255 then 255 else b mod 16)) /\
+  enc (PDutyCycleReq (if b =? 255 then 255 else b mod 16)) = Ok [if b =? 255 then 255 else b mod 16].
+Proof. exact dutycycle_rfu_ignored. Qed.
+Print Assumptions C06_dutycycle_rfu_ignored.
 
 (* the layout interpreter itself is an inverse pair on in-width field values *)
 Theorem C06_layout_inverse : forall L vals,
@@ -52,6 +70,14 @@ Theorem C06_layout_inverse : forall L vals,
   spec_decode L (spec_encode L vals) = vals.
 Proof. exact spec_decode_encode. Qed.
 Print Assumptions C06_layout_inverse.
+
+(* ... and so is the kind-level description, on in-width field values and on the legacy octet
+   (no layout encoding - RFU bits zero - collides with it) *)
+Theorem C06_kind_inverse : forall k vals, k <> KProprietary ->
+  in_widths (layout_of k) vals = true \/ (exists x, vals = [x] /\ is_legacy k x = true) ->
+  spec_decode_k k (spec_encode_k k vals) = vals.
+Proof. exact spec_k_inverse. Qed.
+Print Assumptions C06_kind_inverse.
 
 (* ---- frame headers, join payloads (layouts in Frame/WireSpec.v) ---- *)
 (* MHDR: all MTypes x Majors encode to the layout; all 256 octets decode to it (RFU ignored) *)
